@@ -3,73 +3,41 @@ Specification side of C08, written from the W3C texts and independent of the mod
 
 * XPath 3.1 (https://www.w3.org/TR/xpath-31/) §3.3.1 (comma), §3.3.1 (range `to`),
   §3.3.3 / §3.2.2 (filter expressions, predicates), §3.9 (`for`), §3.12 (quantified
-  expressions), §3.15 (simple map `!`), §2.4.3 (effective boolean value);
+  expressions), §3.15 (simple map `!`), §2.4.3 (effective boolean value), §2.6.2 (atomization),
+  §B.1 (type promotion);
 * XPath and XQuery Functions and Operators 3.1 (https://www.w3.org/TR/xpath-functions-31/)
   §14.1 (empty, exists, head, tail, insert-before, remove, reverse, subsequence),
   §14.2 (distinct-values, index-of), §14.3 (zero-or-one, one-or-more, exactly-one),
   §14.4 (count, avg, max, min, sum), §5.4.2 (string-join), §4.4.4 (round), §7.3.1 (boolean).
 
-Only the value types (`D`, `Atom`, `Err`, `Expr`) are shared with the model.  Where the W3C
-texts leave a choice to the implementation (which operand error is reported; whether a
-quantifier stops at the first decisive tuple, XPath §2.3.4 and §3.12), the specification
-fixes: operands left to right, binding sequences evaluated completely before iterating,
-quantifiers stop at the first decisive tuple.
+Only the value types (`XV`, `D`, `Atom`, `Err`, `Expr`) and the arithmetic kernel
+(EPV/Model/SeqFunsNum.lean: exact order of extended values, `rnd` = IEEE 754 round-to-nearest,
+`D.add`/`D.mul`, `roundSig28`) are shared with the model.  Where the W3C texts leave a choice to
+the implementation (which operand error is reported; whether a quantifier stops at the first
+decisive tuple, XPath §2.3.4 and §3.12), this specification (`sem`) fixes: operands left to right,
+binding sequences evaluated completely before iterating, quantifiers stop at the first decisive
+tuple.  The *set* of outcomes that §2.3.4 permits is specified in EPV/Spec/FOSeqLazy.lean.
 -/
 import EPV.Model.SeqFuns
 namespace EPV.Seq.Spec
 open EPV.Seq
 
-/-! ## xs:double as an extended real (IEEE 754 / F&O §4.2, §4.3) -/
+/-! ## xs:double (IEEE 754 / F&O §4.2, §4.3) -/
 
-/-- the exact value of a finite double as a fraction with positive denominator -/
-def D.frac? : D → Option (Int × Int)
-  | .fin m k => some (m, (2 : Int) ^ k)
-  | _ => none
-
-/-- `op:numeric-less-than`: NaN is unordered; -INF < every finite < +INF; finite values by
-their exact value -/
-def ltD (a b : D) : Prop :=
-  match a, b with
-  | .nan, _ | _, .nan => False
-  | .ninf, .ninf => False
-  | .ninf, _ => True
-  | _, .ninf => False
-  | .pinf, _ => False
-  | _, .pinf => True
-  | .fin m k, .fin m' k' => m * (2 : Int) ^ k' < m' * (2 : Int) ^ k
-
-/-- `op:numeric-equal` -/
-def eqD (a b : D) : Prop :=
-  match a, b with
-  | .nan, _ | _, .nan => False
-  | .ninf, .ninf => True
-  | .pinf, .pinf => True
-  | .fin m k, .fin m' k' => m * (2 : Int) ^ k' = m' * (2 : Int) ^ k
-  | _, _ => False
-
-instance (a b : D) : Decidable (ltD a b) := by
-  unfold ltD; split <;> infer_instance
-instance (a b : D) : Decidable (eqD a b) := by
-  unfold eqD; split <;> infer_instance
-
+/-- `op:numeric-less-than` / `op:numeric-equal` on doubles: the order of the exact values,
+NaN unordered, -0 = +0 -/
+def ltD (a b : D) : Bool := XV.lt a.val b.val
+def eqD (a b : D) : Bool := XV.eqv a.val b.val
 /-- `le` = `lt or eq` (XPath §3.7.1) -/
-def leD (a b : D) : Prop := ltD a b ∨ eqD a b
-instance (a b : D) : Decidable (leD a b) := by unfold leD; infer_instance
-
-/-- `op:numeric-add` on doubles, exact on finite operands (IEEE rounding is not part of
-this specification) -/
-def addD (a b : D) : D :=
-  match a, b with
-  | .nan, _ | _, .nan => .nan
-  | .fin m k, .fin m' k' => .fin (m * (2 : Int) ^ k' + m' * (2 : Int) ^ k) (k + k')
-  | .pinf, .ninf | .ninf, .pinf => .nan
-  | .pinf, _ | _, .pinf => .pinf
-  | .ninf, _ | _, .ninf => .ninf
+def leD (a b : D) : Bool := ltD a b || eqD a b
 
 /-- `fn:round` (F&O §4.4.4): the nearest integer, ties towards positive infinity, i.e.
-⌊x + 1/2⌋; NaN and ±INF are returned unchanged. -/
+⌊x + 1/2⌋; NaN, ±INF and ±0 are returned unchanged; a negative argument that rounds to zero
+gives negative zero. -/
 def roundD : D → D
-  | .fin m k => .fin (Int.fdiv (2 * m + (2 : Int) ^ k) ((2 : Int) ^ (k + 1))) 0
+  | .fin m k =>
+    let f := Int.fdiv (2 * m + (2 : Int) ^ k) ((2 : Int) ^ (k + 1))
+    if f = 0 ∧ m < 0 then .nzero else .fin f 0
   | d => d
 
 def ofPos (p : Nat) : D := .fin (Int.ofNat p) 0
@@ -105,13 +73,13 @@ def reverse (xs : List α) : List α := xs.reverse
 /-- §14.1.10 fn:subsequence, two arguments:
 `$sourceSeq[fn:round($startingLoc) le position()]` -/
 def subsequence2 (xs : List α) (start : D) : List α :=
-  filterPos (fun i => decide (leD (roundD start) (ofPos i))) xs
+  filterPos (fun i => leD (roundD start) (ofPos i)) xs
 
 /-- three arguments: `$sourceSeq[fn:round($startingLoc) le position() and position() lt
-fn:round($startingLoc) + fn:round($length)]` -/
+fn:round($startingLoc) + fn:round($length)]`; `+` is `op:numeric-add` on xs:double -/
 def subsequence3 (xs : List α) (start len : D) : List α :=
-  filterPos (fun i => decide (leD (roundD start) (ofPos i)) &&
-    decide (ltD (ofPos i) (addD (roundD start) (roundD len)))) xs
+  filterPos (fun i => leD (roundD start) (ofPos i) &&
+    ltD (ofPos i) (D.add (roundD start) (roundD len))) xs
 
 /-- §14.1.3 fn:head = `$arg[1]` -/
 def head (xs : List α) : List α := xs.take 1
@@ -128,6 +96,12 @@ def oneOrMore (xs : List α) : Except Err (List α) :=
 def exactlyOne (xs : List α) : Except Err (List α) :=
   if xs.length = 1 then .ok xs else .error .FORG0005
 
+/-- the greatest (`isMax`) or least element w.r.t. a strict order `lt`; among equal
+candidates the earliest (any choice is permitted by §14.4.3) -/
+def extremum {β : Type} (lt : β → β → Bool) (isMax : Bool) : β → List β → β
+  | b, [] => b
+  | b, x :: xs => extremum lt isMax (if (if isMax then lt b x else lt x b) then x else b) xs
+
 end Structural
 
 /-- XPath §3.3.1 range expression: the integers from `a` to `b` in increasing order; empty
@@ -135,39 +109,71 @@ when `a > b` -/
 def rangeTo (a b : Int) : List Int :=
   (List.range (b + 1 - a).toNat).map fun (i : Nat) => a + Int.ofNat i
 
-/-! ## comparisons of atomic items (`eq`, XPath §3.7.1 / F&O operator mapping) -/
+/-! ## atomic items: kinds, atomization, promotion, `eq` -/
 
-inductive Kind where | num | str | bool deriving DecidableEq
+inductive Kind where | num | str | bool | node deriving DecidableEq
 
+/-- xs:untypedAtomic is compared as xs:string (F&O §14.2.1, §14.2.2; XPath §3.7.1) -/
 def kind : Atom → Kind
-  | .int _ | .dbl _ => .num
-  | .str _ => .str
+  | .int _ | .dec _ _ | .dbl _ => .num
+  | .str _ | .untyped _ => .str
   | .bool _ => .bool
+  | .node _ => .node
 
-/-- numeric items promoted to xs:double (exact for the integers of the model) -/
-def numVal : Atom → D
-  | .int n => .fin n 0
+/-- XPath §2.6.2 atomization: the typed value of a node of an untyped document is its string
+value as xs:untypedAtomic -/
+def atomized (doc : List String) (a : Atom) : Atom :=
+  match a with
+  | .node i => .untyped (doc.getD i "")
+  | a => a
+
+def stringOfKey : Atom → String
+  | .str s => s
+  | .untyped s => s
+  | _ => ""
+
+def isDouble : Atom → Bool | .dbl _ => true | _ => false
+
+/-- the exact value of a numeric item / its value after the cast to xs:double (XPath §B.1) -/
+def exact : Atom → XV
+  | .int n => .q n 1
+  | .dec m k => .q m (10 ^ k)
+  | .dbl d => d.val
+  | _ => .nan
+
+def toDouble : Atom → D
+  | .int n => D.ofInt n
+  | .dec m k => rnd m (10 ^ k)
   | .dbl d => d
   | _ => .nan
+
+/-- `op:numeric-equal` / `op:numeric-less-than` after type promotion: xs:double as soon as one
+operand is an xs:double, the exact xs:decimal order otherwise -/
+def numEq (a b : Atom) : Bool :=
+  if isDouble a || isDouble b then eqD (toDouble a) (toDouble b) else XV.eqv (exact a) (exact b)
+def numLt (a b : Atom) : Bool :=
+  if isDouble a || isDouble b then ltD (toDouble a) (toDouble b) else XV.lt (exact a) (exact b)
 
 def strLtSpec (s t : String) : Prop := s.toList.map Char.toNat < t.toList.map Char.toNat
 instance (s t : String) : Decidable (strLtSpec s t) := by unfold strLtSpec; infer_instance
 
 /-- `a eq b` where it is defined (`none`: the operand types are not comparable → XPTY0004) -/
 def eqAtom? (a b : Atom) : Option Bool :=
-  match a, b with
-  | .str s, .str t => some (s == t)
-  | .bool x, .bool y => some (x == y)
-  | a, b => if kind a = .num ∧ kind b = .num then some (decide (eqD (numVal a) (numVal b))) else none
+  match kind a, kind b with
+  | .num, .num => some (numEq a b)
+  | .str, .str => some (stringOfKey a == stringOfKey b)
+  | .bool, .bool => some (a == b)
+  | _, _ => none
 
 /-- `a lt b` where it is defined -/
 def ltAtom? (a b : Atom) : Option Bool :=
-  match a, b with
-  | .str s, .str t => some (decide (strLtSpec s t))
-  | .bool x, .bool y => some (!x && y)
-  | a, b => if kind a = .num ∧ kind b = .num then some (decide (ltD (numVal a) (numVal b))) else none
+  match kind a, kind b with
+  | .num, .num => some (numLt a b)
+  | .str, .str => some (decide (strLtSpec (stringOfKey a) (stringOfKey b)))
+  | .bool, .bool => some (a == .bool false && b == .bool true)
+  | _, _ => none
 
-/-- value comparison of two single items (XPath §3.7.1) -/
+/-- value comparison of two single atomic items (XPath §3.7.1) -/
 def compareAtoms (op : Cmp) (a b : Atom) : Except Err Bool :=
   match eqAtom? a b, ltAtom? a b, ltAtom? b a with
   | some e, some l, some g =>
@@ -175,9 +181,9 @@ def compareAtoms (op : Cmp) (a b : Atom) : Except Err Bool :=
       | .eq => e | .ne => !e | .lt => l | .le => l || e | .gt => g | .ge => g || e)
   | _, _, _ => .error .XPTY0004
 
-/-- §14.2.2 fn:index-of: "the positions of items equal to $search … items that cannot be
-compared, because the eq operator is not defined for their types, are considered to be
-distinct" -/
+/-- §14.2.2 fn:index-of on the atomized sequence: "the positions of items equal to $search …
+items that cannot be compared, because the eq operator is not defined for their types, are
+considered to be distinct" -/
 def indexOf (xs : Seq) (v : Atom) : Seq :=
   ((positions xs).filter fun t => eqAtom? t.1 v == some true).map fun t => Atom.int t.2
 
@@ -186,93 +192,138 @@ of non-comparable types are distinct -/
 def sameValue (a b : Atom) : Bool :=
   (a == .dbl .nan && b == .dbl .nan) || eqAtom? a b == some true
 
-/-- §14.2.1 fn:distinct-values, with the (permitted) choice "first occurrence, in order" -/
-def distinctValues : Seq → Seq
+/-- §14.2.1 fn:distinct-values: the items that are not equal to an item kept before them, in
+order.  When `eq` is transitive on the input this is "the first occurrence of every class of
+equal values"; when it is not (values of different numeric types that are equal only after
+promotion) the number and choice of the results is implementation-dependent, subject to the
+constraints (a) no two results are equal, (b) every input item equals some result — this
+choice satisfies them (theorem `distinct_values_constraints`). -/
+def distinctFrom (kept : Seq) : Seq → Seq
   | [] => []
-  | x :: xs => x :: (distinctValues xs).filter fun y => !sameValue x y
+  | x :: xs =>
+    if kept.any (fun y => sameValue y x) then distinctFrom kept xs
+    else x :: distinctFrom (kept ++ [x]) xs
 
-/-- F&O §7.3.1 fn:boolean / XPath §2.4.3 effective boolean value (atomic items only) -/
+def distinctValues (xs : Seq) : Seq := distinctFrom [] xs
+
+/-- F&O §7.3.1 fn:boolean / XPath §2.4.3 effective boolean value -/
 def ebv (s : Seq) : Except Err Bool :=
   match s with
   | [] => .ok false
+  | .node _ :: _ => .ok true
   | [.bool b] => .ok b
   | [.str t] => .ok (t.length ≠ 0)
+  | [.untyped t] => .ok (t.length ≠ 0)
   | [.int n] => .ok (n ≠ 0)
-  | [.dbl d] => .ok (!(d == .nan) && !decide (eqD d (.fin 0 0)))
+  | [.dec m _] => .ok (m ≠ 0)
+  | [.dbl d] => .ok (!(d == .nan) && !eqD d (.fin 0 0))
   | _ => .error .FORG0006
 
 /-! ### aggregates (§14.4) -/
 
 def allKind (k : Kind) (s : Seq) : Bool := s.all fun a => kind a == k
 def allInt (s : Seq) : Bool := s.all fun a => match a with | .int _ => true | _ => false
+def anyDouble (s : Seq) : Bool := s.any isDouble
+/-- nodes and xs:untypedAtomic arguments of the aggregates (cast to xs:double from the lexical
+form) are outside the modelled fragment -/
+def outsideAgg (s : Seq) : Bool :=
+  s.any fun a => match a with | .node _ | .untyped _ => true | _ => false
+
+/-- exact sum of integers and decimals as `m / 10^k` -/
+def exactSum (s : Seq) : Int × Nat :=
+  s.foldl (fun acc a => match a with
+    | .int n => (acc.1 + n * 10 ^ acc.2, acc.2)
+    | .dec m k => (acc.1 * 10 ^ k + m * 10 ^ acc.2, acc.2 + k)
+    | _ => acc) (0, 0)
+
+/-- `$c[1] + ($c[2] + (… + $c[n]))` with `op:numeric-add` on xs:double (§14.4.5) -/
+def sumDoubles : List D → D
+  | [] => .fin 0 0
+  | [x] => x
+  | x :: y :: rest => D.add x (sumDoubles (y :: rest))
+
+/-- The summation of xs:double values is a parameter of the specification: `foSum` is the
+definition of F&O §14.4.5; `pySum` is CPython's compensated summation, which elementpath uses
+(known finding F08q: the two differ where the roundings of the individual additions matter). -/
+structure Summation where
+  sumD : List D → D        -- the sum of the promoted values (at least one value)
+  avgD : Seq → D           -- the sum of a numeric sequence that contains an xs:double, for fn:avg
+
+def foSum : Summation :=
+  { sumD := sumDoubles, avgD := fun s => sumDoubles (s.map toDouble) }
+
+def pySum : Summation :=
+  { sumD := neumaierSum, avgD := fun s => avgSum (s.map fun a => if a.isDec then Atom.dbl a.toD else a) }
 
 /-- §14.4.5 fn:sum: empty → `$zero` (default 0); all values must be numeric (FORG0006
-otherwise); integers add as integers, otherwise all values are promoted to xs:double -/
-def fnSum (s : Seq) (zero : Option Seq) : R :=
+otherwise); one value → that value; integers / decimals add exactly, otherwise all values are
+promoted to xs:double -/
+def fnSum (sm : Summation) (s : Seq) (zero : Option Seq) : R :=
+  if outsideAgg s then .error .UNSUPPORTED else
   match s with
   | [] => match zero with
     | none => .ok [.int 0]
     | some [] => .ok []
     | some [z] => .ok [z]
     | some _ => .error .XPTY0004
+  | [a] => if kind a == .num then .ok [a] else .error .FORG0006
   | _ =>
     if !allKind .num s then .error .FORG0006
-    else if allInt s then .ok [.int ((s.map fun a => match a with | .int n => n | _ => 0).sum)]
-    else .ok [.dbl ((s.map numVal).foldl addD (.fin 0 0))]
+    else if anyDouble s then .ok [.dbl (sm.sumD (s.map toDouble))]
+    else if allInt s then .ok [.int (exactSum s).1]
+    else .ok [.dec (exactSum s).1 (exactSum s).2]
 
-/-- §14.4.2 fn:avg = sum divided by count; the quotient is reported exactly -/
-def fnAvg (s : Seq) : Except Err AvgRes :=
+/-- §14.4.2 fn:avg = sum divided by count; xs:decimal division is rounded to 28 significant
+digits (the precision is implementation-defined), xs:double division is IEEE; an integral mean
+of integers is delivered as xs:integer -/
+def fnAvg (sm : Summation) (s : Seq) : R :=
+  if outsideAgg s then .error .UNSUPPORTED else
   match s with
-  | [] => .ok .empty
+  | [] => .ok []
   | _ =>
     if !allKind .num s then .error .FORG0006
-    else if allInt s then .ok (.intQ ((s.map fun a => match a with | .int n => n | _ => 0).sum) s.length)
-    else .ok (.dblQ ((s.map numVal).foldl addD (.fin 0 0)) s.length)
+    else if anyDouble s then .ok [.dbl ((sm.avgD s).divNat s.length)]
+    else
+      let t := exactSum s
+      let r := roundSig28 t.1 (10 ^ t.2 * s.length)
+      if allInt s ∧ r.1 % (10 ^ r.2 : Nat) = 0 then .ok [.int (r.1 / (10 ^ r.2 : Nat))]
+      else .ok [.dec r.1 r.2]
 
-/-- the greatest (`isMax`) or least element w.r.t. a strict order `lt`; among equal
-candidates the earliest (any choice is permitted by §14.4.3) -/
-def extremum {β : Type} (lt : β → β → Bool) (isMax : Bool) : β → List β → β
-  | b, [] => b
-  | b, x :: xs => extremum lt isMax (if (if isMax then lt b x else lt x b) then x else b) xs
-
-/-- §14.4.3 fn:max / §14.4.4 fn:min: all values of one comparable kind (FORG0006 otherwise);
-numeric values are promoted to a common type (xs:double as soon as one double occurs); if any
-value is NaN the result is NaN -/
+/-- §14.4.3 fn:max / §14.4.4 fn:min: all values of one comparable kind (FORG0006 otherwise).
+Numeric values: the greatest / least value; it is delivered as xs:double as soon as one double
+occurs (NaN if any value is NaN).  F&O converts every value to xs:double before comparing;
+IEEE rounding is monotone, so the converted extremum is the conversion of the exact extremum,
+which is what is specified here. -/
 def fnMinMax (isMax : Bool) (s : Seq) : R :=
+  if outsideAgg s then .error .UNSUPPORTED else
   match s with
   | [] => .ok []
   | a :: rest =>
     if allKind .str s then
-      match a with
-      | .str t => .ok [.str (extremum (fun x y => decide (strLtSpec x y)) isMax t
-          (rest.filterMap fun | .str u => some u | _ => none))]
-      | _ => .error .FORG0006
+      .ok [.str (extremum (fun x y => decide (strLtSpec x y)) isMax (stringOfKey a) (rest.map stringOfKey))]
     else if allKind .bool s then
-      match a with
-      | .bool b => .ok [.bool (extremum (fun x y => !x && y) isMax b
-          (rest.filterMap fun | .bool u => some u | _ => none))]
-      | _ => .error .FORG0006
+      .ok [.bool (extremum (fun x y => !x && y) isMax (a == .bool true) (rest.map (· == .bool true)))]
     else if allKind .num s then
-      if allInt s then
-        match a with
-        | .int n => .ok [.int (extremum (fun x y => decide (x < y)) isMax n
-            (rest.filterMap fun | .int u => some u | _ => none))]
-        | _ => .error .FORG0006
-      else if s.any (· == .dbl .nan) then .ok [.dbl .nan]
-      else .ok [.dbl (extremum (fun x y => decide (ltD x y)) isMax (numVal a) (rest.map numVal))]
+      if anyDouble s then
+        if s.any (· == .dbl .nan) then .ok [.dbl .nan]
+        else .ok [.dbl (toDouble (extremum (fun x y => XV.lt (exact x) (exact y)) isMax a rest))]
+      else .ok [extremum (fun x y => XV.lt (exact x) (exact y)) isMax a rest]
     else .error .FORG0006
 
-/-- the string value of an atomic item (only the lexical forms the model covers) -/
-def stringOf? : Atom → Option String
+/-- the string value of an item (only the lexical forms the model covers) -/
+def stringOf? (doc : List String) : Atom → Option String
   | .str s => some s
+  | .untyped s => some s
+  | .node i => some (doc.getD i "")
   | .int n => some (toString n)
   | .bool true => some "true"
   | .bool false => some "false"
+  | .dec _ _ => none
   | .dbl _ => none
 
 /-- §5.4.2 fn:string-join: the string values separated by `$separator` (default "") -/
-def fnStringJoin (s : Seq) (sep : Option Seq) : R :=
-  match s.mapM stringOf? with
+def fnStringJoin (doc : List String) (s : Seq) (sep : Option Seq) : R :=
+  match s.mapM (stringOf? doc) with
   | none => .error .UNSUPPORTED
   | some strs =>
     match sep with
@@ -280,31 +331,45 @@ def fnStringJoin (s : Seq) (sep : Option Seq) : R :=
     | some [.str t] => .ok [.str (String.intercalate t strs)]
     | some _ => .error .XPTY0004
 
-/-- §4.4.4 fn:round on `xs:numeric?` -/
+/-- §4.4.4 fn:round on `xs:numeric?`: ⌊x + 1/2⌋ -/
 def fnRound (s : Seq) : R :=
   match s with
   | [] => .ok []
   | [.int n] => .ok [.int n]
+  | [.dec m k] => .ok [.dec (Int.fdiv (2 * m + (10 : Int) ^ k) (2 * (10 : Int) ^ k)) 0]
   | [.dbl d] => .ok [.dbl (roundD d)]
+  | [.untyped _] => .error .UNSUPPORTED
+  | [.node _] => .error .UNSUPPORTED
   | _ => .error .XPTY0004
 
 /-- function conversion rules for an `xs:integer` parameter -/
 def asInteger : Seq → Except Err Int
   | [.int n] => .ok n
+  | [.untyped _] => .error .UNSUPPORTED
+  | [.node _] => .error .UNSUPPORTED
   | _ => .error .XPTY0004
 
-/-- function conversion rules for an `xs:double` parameter (integers are promoted) -/
-def asDouble : Seq → Except Err D
-  | [.int n] => .ok (.fin n 0)
-  | [.dbl d] => .ok d
+/-- `fn:round` of an `xs:double` parameter (integers are promoted; xs:decimal, xs:untypedAtomic
+and node arguments are outside the modelled fragment) -/
+def asRoundedDouble : Seq → Except Err D
+  | [.int n] => .ok (roundD (D.ofInt n))
+  | [.dbl d] => .ok (roundD d)
+  | [.dec _ _] => .error .UNSUPPORTED
+  | [.untyped _] => .error .UNSUPPORTED
+  | [.node _] => .error .UNSUPPORTED
   | _ => .error .XPTY0004
 
-def avgToSeq : AvgRes → R
-  | .empty => .ok []
-  | .intQ n d => if d ≠ 0 ∧ n % (d : Int) = 0 then .ok [.int (n / (d : Int))] else .error .UNSUPPORTED
-  | .dblQ n d => if d = 1 then .ok [.dbl n] else .error .UNSUPPORTED
+/-- fn:subsequence on rounded arguments -/
+def subsequence2R {α : Type} (xs : List α) (s : D) : List α :=
+  filterPos (fun i => leD s (ofPos i)) xs
+def subsequence3R {α : Type} (xs : List α) (s l : D) : List α :=
+  filterPos (fun i => leD s (ofPos i) && ltD (ofPos i) (D.add s l)) xs
 
-def applyFn1 (f : Fn1) (v : Seq) : R :=
+/-- CPython's compensated summation gives the F&O sum (trigger of finding F08q when false) -/
+def sumAgrees (s : Seq) : Bool := decide (pySum.sumD (s.map toDouble) = foSum.sumD (s.map toDouble))
+def avgAgrees (s : Seq) : Bool := decide (pySum.avgD s = foSum.avgD s)
+
+def applyFn1 (sm : Summation) (doc : List String) (f : Fn1) (v : Seq) : R :=
   match f with
   | .count => .ok [.int (count v)]
   | .empty => .ok [.bool (decide (v.length = 0))]
@@ -315,30 +380,30 @@ def applyFn1 (f : Fn1) (v : Seq) : R :=
   | .zeroOrOne => zeroOrOne v
   | .oneOrMore => oneOrMore v
   | .exactlyOne => exactlyOne v
-  | .sum => fnSum v none
-  | .avg => (fnAvg v).bind avgToSeq
+  | .sum => fnSum sm v none
+  | .avg => fnAvg sm v
   | .min => fnMinMax false v
   | .max => fnMinMax true v
-  | .distinct => .ok (distinctValues v)
-  | .stringJoin => fnStringJoin v none
+  | .distinct => .ok (distinctValues (v.map (atomized doc)))
+  | .stringJoin => fnStringJoin doc v none
   | .not_ => (ebv v).map fun b => [.bool (!b)]
   | .boolean => (ebv v).map fun b => [.bool b]
   | .round => fnRound v
 
-def applyFn2 (f : Fn2) (va vb : Seq) : R :=
+def applyFn2 (sm : Summation) (doc : List String) (f : Fn2) (va vb : Seq) : R :=
   match f with
   | .remove => (asInteger vb).map fun p => remove va p
   | .indexOf => match vb with
-    | [x] => .ok (indexOf va x)
+    | [x] => .ok (indexOf (va.map (atomized doc)) (atomized doc x))
     | _ => .error .XPTY0004
-  | .subseq => (asDouble vb).map fun s => subsequence2 va s
-  | .stringJoin => fnStringJoin va (some vb)
-  | .sum => fnSum va (some vb)
+  | .subseq => (asRoundedDouble vb).map fun s => subsequence2R va s
+  | .stringJoin => fnStringJoin doc va (some vb)
+  | .sum => fnSum sm va (some vb)
 
 def applyFn3 (f : Fn3) (va vb vc : Seq) : R :=
   match f with
   | .insertBefore => (asInteger vb).map fun p => insertBefore va p vc
-  | .subseq => (asDouble vb).bind fun s => (asDouble vc).map fun l => subsequence3 va s l
+  | .subseq => (asRoundedDouble vb).bind fun s => (asRoundedDouble vc).map fun l => subsequence3R va s l
 
 /-! ## Expression semantics (XPath 3.1 §3) -/
 
@@ -370,11 +435,11 @@ def forallM {β : Type} (test : β → Except Err Bool) : List β → Except Err
     if ← test b then forallM test bs else pure false
 
 /-- XPath §3.3.3: a predicate whose value is a single numeric is true iff it equals (`eq`) the
-context position; otherwise its effective boolean value is taken -/
+context position; otherwise its effective boolean value is taken.  (Positions are below 2^53,
+where the promotion of the position to xs:double is the identity: the exact values are compared.) -/
 def predicateTruth (pos : Nat) (v : Seq) : Except Err Bool :=
   match v with
-  | [.int n] => .ok (decide (eqD (ofPos pos) (.fin n 0)))
-  | [.dbl d] => .ok (decide (eqD (ofPos pos) d))
+  | [a] => if kind a == .num then .ok (XV.eqv (.q (Int.ofNat pos) 1) (exact a)) else ebv v
   | _ => ebv v
 
 def atMostOne : Seq → Except Err (Option Atom)
@@ -382,10 +447,12 @@ def atMostOne : Seq → Except Err (Option Atom)
   | [a] => .ok (some a)
   | _ => .error .XPTY0004
 
-/-- operand of `to`: `xs:integer?` -/
+/-- operand of `to`: `xs:integer?` (untyped / node operands: outside the fragment) -/
 def atMostInt : Seq → Except Err (Option Int)
   | [] => .ok none
   | [.int n] => .ok (some n)
+  | [.untyped _] => .error .UNSUPPORTED
+  | [.node _] => .error .UNSUPPORTED
   | _ => .error .XPTY0004
 
 def bind1 (c : Ctx) (x : Nat) (v : Atom) : Ctx := { c with vars := (x, [v]) :: c.vars }
@@ -393,22 +460,41 @@ def bind1 (c : Ctx) (x : Nat) (v : Atom) : Ctx := { c with vars := (x, [v]) :: c
 /-- numeric operand of an arithmetic operator (XPath §3.5): empty → empty result -/
 def numericOperand : Seq → Except Err (Option Atom)
   | [] => .ok none
-  | [a] => if kind a = .num then .ok (some a) else .error .XPTY0004
+  | [a] =>
+    if kind a = .num then .ok (some a)
+    else match a with
+      | .untyped _ | .node _ => .error .UNSUPPORTED
+      | _ => .error .XPTY0004
   | _ => .error .XPTY0004
 
-def mulD (a b : D) : D := D.mul a b
+/-- a non-double numeric as the exact fraction `m / 10^k` -/
+def decOf : Atom → Int × Nat
+  | .int n => (n, 0)
+  | .dec m k => (m, k)
+  | _ => (0, 0)
 
+/-- `op:numeric-add/subtract/multiply` (XPath §3.5, §B.1): xs:integer stays xs:integer,
+xs:decimal is exact, xs:double as soon as one operand is an xs:double -/
 def arith (op : Arith) (a b : Atom) : Atom :=
   match a, b with
   | .int x, .int y => .int (match op with | .add => x + y | .sub => x - y | .mul => x * y)
-  | a, b => .dbl (match op with
-    | .add => addD (numVal a) (numVal b)
-    | .sub => addD (numVal a) (D.neg (numVal b))
-    | .mul => mulD (numVal a) (numVal b))
+  | a, b =>
+    if isDouble a || isDouble b then
+      .dbl (match op with
+        | .add => D.add (toDouble a) (toDouble b)
+        | .sub => D.add (toDouble a) (D.neg (toDouble b))
+        | .mul => D.mul (toDouble a) (toDouble b))
+    else
+      let x := decOf a
+      let y := decOf b
+      match op with
+      | .add => .dec (x.1 * 10 ^ y.2 + y.1 * 10 ^ x.2) (x.2 + y.2)
+      | .sub => .dec (x.1 * 10 ^ y.2 + (-y.1) * 10 ^ x.2) (x.2 + y.2)
+      | .mul => .dec (x.1 * y.1) (x.2 + y.2)
 
 mutual
 /-- the value of an expression in a dynamic context -/
-def sem : Expr → Ctx → R
+def sem (sm : Summation) : Expr → Ctx → R
   | .lit a, _ => .ok [a]
   | .empty, _ => .ok []
   | .var x, c => match lookupVar x c.vars with
@@ -421,124 +507,124 @@ def sem : Expr → Ctx → R
   | .last, c => .ok [.int c.size]
   -- §3.3.1: concatenation
   | .comma a b, c => do
-    let va ← sem a c
-    let vb ← sem b c
+    let va ← sem sm a c
+    let vb ← sem sm b c
     pure (va ++ vb)
   -- §3.3.1: range; an empty operand gives the empty sequence
   | .range a b, c => do
-    match ← (sem a c).bind atMostInt with
+    match ← (sem sm a c).bind atMostInt with
     | none => pure []
     | some lo =>
-      match ← (sem b c).bind atMostInt with
+      match ← (sem sm b c).bind atMostInt with
       | none => pure []
       | some hi => pure ((rangeTo lo hi).map Atom.int)
   -- §3.3.3: filter — inner focus: item, its 1-based position, the size of the sequence
   | .filter e p, c => do
-    let s ← sem e c
+    let s ← sem sm e c
     let kept ← keepWhere (fun t : Atom × Nat => do
-        let v ← sem p { c with item := some t.1, pos := t.2, size := s.length }
+        let v ← sem sm p { c with item := some t.1, pos := t.2, size := s.length }
         predicateTruth t.2 v) (positions s)
     pure (kept.map Prod.fst)
   -- §3.15: simple map — the concatenation of the results for every item, in order
   | .map a b, c => do
-    let s ← sem a c
-    collect (fun t : Atom × Nat => sem b { c with item := some t.1, pos := t.2, size := s.length })
+    let s ← sem sm a c
+    collect (fun t : Atom × Nat => sem sm b { c with item := some t.1, pos := t.2, size := s.length })
       (positions s)
   -- §3.9: for
-  | .forE bs r, c => semFor bs c (fun c' => sem r c')
+  | .forE bs r, c => semFor sm bs c (fun c' => sem sm r c')
   -- §3.12: quantified expressions
   | .someE bs t, c => do
-    let r ← semSome bs c (fun c' => (sem t c').bind ebv)
+    let r ← semSome sm bs c (fun c' => (sem sm t c').bind ebv)
     pure [.bool r]
   | .everyE bs t, c => do
-    let r ← semEvery bs c (fun c' => (sem t c').bind ebv)
+    let r ← semEvery sm bs c (fun c' => (sem sm t c').bind ebv)
     pure [.bool r]
-  | .fn1 f a, c => (sem a c).bind (applyFn1 f)
+  | .fn1 f a, c => (sem sm a c).bind (applyFn1 sm c.doc f)
   | .fn2 f a b, c =>
     match f with
     | .stringJoin => do
-      let va ← sem a c
-      let vb ← sem b c
-      applyFn2 f va vb
+      let va ← sem sm a c
+      let vb ← sem sm b c
+      applyFn2 sm c.doc f va vb
     | .sum => do
       -- `$zero` is needed only for an empty input (§2.3.4 allows not evaluating it otherwise)
-      let va ← sem a c
+      let va ← sem sm a c
       if va.length = 0 then
-        let vb ← sem b c
-        applyFn2 f va vb
-      else applyFn1 .sum va
+        let vb ← sem sm b c
+        applyFn2 sm c.doc f va vb
+      else applyFn1 sm c.doc .sum va
     | _ => do
-      let vb ← sem b c
-      let va ← sem a c
-      applyFn2 f va vb
+      let vb ← sem sm b c
+      let va ← sem sm a c
+      applyFn2 sm c.doc f va vb
   | .fn3 f a b d, c =>
     match f with
     | .insertBefore => do
-      let vb ← sem b c
-      let va ← sem a c
-      let vd ← sem d c
+      let vb ← sem sm b c
+      let va ← sem sm a c
+      let vd ← sem sm d c
       applyFn3 f va vb vd
     | .subseq => do
-      let vb ← sem b c
-      let vd ← sem d c
-      let va ← sem a c
+      let vb ← sem sm b c
+      let vd ← sem sm d c
+      let va ← sem sm a c
       applyFn3 f va vb vd
   -- §3.7.1 value comparison: an empty operand gives the empty sequence
   | .cmp op a b, c => do
-    let x ← (sem a c).bind atMostOne
-    let y ← (sem b c).bind atMostOne
+    let x ← (sem sm a c).bind fun v => atMostOne (v.map (atomized c.doc))
+    let y ← (sem sm b c).bind fun v => atMostOne (v.map (atomized c.doc))
     match x, y with
     | some x, some y => let r ← compareAtoms op x y; pure [.bool r]
     | _, _ => pure []
   -- §3.8 logical expressions (left to right, short-circuit)
   | .andE a b, c => do
-    if ← (sem a c).bind ebv then
-      let r ← (sem b c).bind ebv
+    if ← (sem sm a c).bind ebv then
+      let r ← (sem sm b c).bind ebv
       pure [.bool r]
     else pure [.bool false]
   | .orE a b, c => do
-    if ← (sem a c).bind ebv then pure [.bool true]
+    if ← (sem sm a c).bind ebv then pure [.bool true]
     else
-      let r ← (sem b c).bind ebv
+      let r ← (sem sm b c).bind ebv
       pure [.bool r]
   -- §3.5 arithmetic on integers and doubles
   | .arith op a b, c => do
-    match ← (sem a c).bind numericOperand with
+    match ← (sem sm a c).bind numericOperand with
     | none => pure []
     | some x =>
-      match ← (sem b c).bind numericOperand with
+      match ← (sem sm b c).bind numericOperand with
       | none => pure []
       | some y => pure [arith op x y]
   | .ifE t a b, c => do
-    if ← (sem t c).bind ebv then sem a c else sem b c
+    if ← (sem sm t c).bind ebv then sem sm a c else sem sm b c
 
 /-- §3.9: `for $x in E1, $y in E2 … return R` = `for $x in E1 return for $y in E2 … return R`;
 a single `for` concatenates the results for the items of its binding sequence in order -/
-def semFor : Binds → Ctx → (Ctx → R) → R
+def semFor (sm : Summation) : Binds → Ctx → (Ctx → R) → R
   | .one x e, c, body => do
-    let s ← sem e c
+    let s ← sem sm e c
     collect (fun v => body (bind1 c x v)) s
   | .cons x e rest, c, body => do
-    let s ← sem e c
-    collect (fun v => semFor rest (bind1 c x v) body) s
+    let s ← sem sm e c
+    collect (fun v => semFor sm rest (bind1 c x v) body) s
 
 /-- §3.12: `some` is true iff the test holds for at least one binding tuple -/
-def semSome : Binds → Ctx → (Ctx → Except Err Bool) → Except Err Bool
+def semSome (sm : Summation) : Binds → Ctx → (Ctx → Except Err Bool) → Except Err Bool
   | .one x e, c, test => do
-    let s ← sem e c
+    let s ← sem sm e c
     existsM (fun v => test (bind1 c x v)) s
   | .cons x e rest, c, test => do
-    let s ← sem e c
-    existsM (fun v => semSome rest (bind1 c x v) test) s
+    let s ← sem sm e c
+    existsM (fun v => semSome sm rest (bind1 c x v) test) s
 
 /-- §3.12: `every` is true iff the test holds for every binding tuple -/
-def semEvery : Binds → Ctx → (Ctx → Except Err Bool) → Except Err Bool
+def semEvery (sm : Summation) : Binds → Ctx → (Ctx → Except Err Bool) → Except Err Bool
   | .one x e, c, test => do
-    let s ← sem e c
+    let s ← sem sm e c
     forallM (fun v => test (bind1 c x v)) s
   | .cons x e rest, c, test => do
-    let s ← sem e c
-    forallM (fun v => semEvery rest (bind1 c x v) test) s
+    let s ← sem sm e c
+    forallM (fun v => semEvery sm rest (bind1 c x v) test) s
 end
 
 end EPV.Seq.Spec
